@@ -29,7 +29,7 @@ EXPLANATION = (
     "elements below the root (64 shapes, repetitions in rotation, names and types unknown, arena hooked), "
     "returns exactly the tree's leaves in order with the specification's definition / repetition levels, "
     "requests the leaf arrays with that many entries and writes nothing past them - whatever walk is behind "
-    "it (recursive, iterative, renamed). (10) the schema elements of a footer - names, also empty ones - come back from the parser as written (round-trip probe of FileMetaData, second pass with every string empty). Decides these clauses; leaf order and counts for trees beyond the "
+    "it (recursive, iterative, renamed). (10) the schema elements of a footer - names, also empty ones - come back from the parser as written (round-trip probe of FileMetaData, second pass with every string empty). (11) carquet_reader_get_column, executed on a reader whose schema arrays hold marker levels (5 / 3) and a marker type length (7) for the requested leaf while the leaf's own element is a plain OPTIONAL one, hands out a column reader carrying the markers: the levels every page decode is sized and interpreted with are the ones the schema walk computed over the leaf's ancestors. Decides these clauses; leaf order and counts for trees beyond the "
     "bound follow from (1) and (9) only by the per-node argument, not by execution.")
 
 FR = "src/reader/file_reader.c"
@@ -72,6 +72,8 @@ def run(ctx):
     ctx.clause("C17.8 an element's logical type is the one the file states: the LogicalType union tables equal the specification's")
     from ..rules import logicaltype
     nlt = logicaltype.check(ctx)
+    ctx.clause("C17.11 a column reader carries the per-leaf levels and type length the schema walk computed, not something derived from the leaf's element alone")
+    ctx.floor("C17 column-reader level probes", _column_reader_levels(ctx), 1)
     ctx.clause("C17.10 the schema elements of a footer (names - empty ones included -, types, repetition, child counts) come back from the parser as the writer serialised them (round-trip probe of FileMetaData)")
     from ..rules import thriftrt
     nrt = thriftrt.check(ctx, only=("FileMetaData",))
@@ -683,3 +685,85 @@ def _walk_table(ctx, tr, enumv):
     except sem.Inconclusive as ex:
         ctx.inconclusive("R5.spec", "level-table|%s:%s" % (FR, tr.name), P.where(tr.body), "abstract execution of the walk", str(ex))
     ctx.floor("C17 walk table cases", cases, 14)
+
+
+def column_reader_probe(P, num_values=40):
+    """Run carquet_reader_get_column abstractly for leaf 1 of a three-leaf schema (see _column_reader_levels).
+    Returns (function, returned pointer or value, heap, member offsets of the column reader)."""
+    from ..rules import sem
+    from ..rules.skeleton import Ptr
+    FR = "src/reader/file_reader.c"
+    fn = P.fn_opt("carquet_reader_get_column", FR)
+    if fn is None:
+        raise AnalysisBroken("anchor function carquet_reader_get_column in %s not found" % FR)
+    ro = sem.field_offsets(P, "carquet_reader")
+    so = sem.field_offsets(P, "carquet_schema")
+    mo = sem.field_offsets(P, "parquet_file_metadata")
+    go = sem.field_offsets(P, "parquet_row_group")
+    co = sem.field_offsets(P, "parquet_column_chunk")
+    cmo = sem.field_offsets(P, "parquet_column_metadata")
+    eo = sem.field_offsets(P, "parquet_schema_element")
+    cro = sem.field_offsets(P, "carquet_column_reader")
+    esz = P.record("parquet_schema_element")["size"]
+    csz = P.record("parquet_column_chunk")["size"]
+    gsz = P.record("parquet_row_group")["size"]
+    rep = P.enum("carquet_field_repetition") if "carquet_field_repetition" in P.enums else {}
+    phys = P.enum("carquet_physical_type")
+    heap0 = {("rd", ro["schema"]): Ptr("sch", 0, 1),
+             ("rd", ro["metadata"] + mo["num_row_groups"]): 1, ("rd", ro["metadata"] + mo["row_groups"]): Ptr("rgs", 0, gsz),
+             ("rgs", go["num_columns"]): 3, ("rgs", go["columns"]): Ptr("cols", 0, csz),
+             ("cols", csz + co["has_metadata"]): 1,
+             ("cols", csz + co["metadata"] + cmo["type"]): phys["CARQUET_PHYSICAL_FIXED_LEN_BYTE_ARRAY"],
+             ("cols", csz + co["metadata"] + cmo["num_values"]): num_values, ("cols", csz + co["metadata"] + cmo["data_page_offset"]): 4,
+             ("sch", so["num_leaves"]): 3, ("sch", so["num_elements"]): 6,
+             ("sch", so["leaf_indices"]): Ptr("li", 0, 4), ("li", 0): 1, ("li", 4): 4, ("li", 8): 5,
+             ("sch", so["elements"]): Ptr("els", 0, esz),
+             ("sch", so["max_def_levels"]): Ptr("mdl", 0, 2), ("mdl", 0): 0, ("mdl", 2): 5, ("mdl", 4): 1,
+             ("sch", so["max_rep_levels"]): Ptr("mrl", 0, 2), ("mrl", 0): 0, ("mrl", 2): 3, ("mrl", 4): 0}
+    for i in range(6):
+        for fld, v in (("has_type", 1), ("type", phys["CARQUET_PHYSICAL_FIXED_LEN_BYTE_ARRAY"]), ("has_repetition_type", 1), ("repetition_type", rep.get("CARQUET_REPETITION_OPTIONAL", 1)),
+                       ("num_children", 0), ("has_num_children", 0), ("type_length", 7 if i == 4 else 11), ("has_type_length", 1)):
+            if fld in eo:
+                heap0[("els", i * esz + eo[fld])] = v
+    k = [0]
+
+    def alloc(ev, a, it):
+        k[0] += 1
+        return Ptr("cr%d" % k[0], 0, 1)
+    ret, ev, heap = sem.run(P, fn, [Ptr("rd", 0, 1), 0, 1, Ptr("err", 0, 1)], heap0=heap0, single=True, max_forks=16, budget=400000, inline_depth=5,
+                            hooks={"calloc": alloc, "malloc": alloc, "free": lambda ev, a, it: None, "carquet_error_set": lambda ev, a, it: None,
+                                   "snprintf": lambda ev, a, it: 0})
+    return fn, ret, heap, cro
+
+
+def _column_reader_levels(ctx):
+    """carquet_reader_get_column, executed abstractly on a reader whose schema says - for leaf 1 - element 4, max definition
+    level 5, max repetition level 3, type length 7, while element 4 itself is a plain OPTIONAL leaf (so anything derived
+    from the element alone gives 1 / 0): the column reader must carry the per-leaf values the schema walk computed, since
+    page decoding sizes and interprets the level streams with them."""
+    from ..rules import sem
+    from ..rules.skeleton import Ptr
+    P = ctx.P
+    FR = "src/reader/file_reader.c"
+    key = "column-reader-levels|%s:carquet_reader_get_column" % FR
+    what = ("the column reader of leaf k carries the schema's max_def_levels[k], max_rep_levels[k] and the type length of element leaf_indices[k] "
+            "(markers 5 / 3 / 7 that no single element could produce)")
+    fn = P.fn_opt("carquet_reader_get_column", FR)
+    if fn is None:
+        raise AnalysisBroken("anchor function carquet_reader_get_column in %s not found" % FR)
+    try:
+        fn, ret, heap, cro = column_reader_probe(P)
+        if not isinstance(ret, Ptr):
+            ctx.ob("R5.agree", key, P.where(fn.body), what, False, "returns %r for leaf 1 of a three-leaf schema with chunk metadata present" % (ret,))
+            return 1
+        got = {m: heap.get((ret.base, ret.off + cro[m])) for m in ("max_def_level", "max_rep_level", "type_length") if m in cro}
+        want = {"max_def_level": 5, "max_rep_level": 3, "type_length": 7}
+        if any(not isinstance(v, int) for v in got.values()):
+            raise sem.Inconclusive("the column reader holds %r" % (got,))
+        bad = {m: (got[m], want[m]) for m in got if got[m] != want[m]}
+        ctx.ob("R5.agree", key, P.where(fn.body), what, not bad,
+               "" if not bad else "; ".join("%s is %d, the schema says %d" % (m, g, w) for m, (g, w) in sorted(bad.items())))
+        return 1
+    except (sem.Inconclusive, KeyError) as ex:
+        ctx.inconclusive("R5.agree", key, P.where(fn.body), what, "%s: %s" % (type(ex).__name__, ex))
+        return 0
